@@ -48,7 +48,10 @@ TCasInc == IsEv("casinc") /\ UNCHANGED <<val, pend>> /\ Ev.final = Ev.start + Ev
 \* eqstore: the register holds one value throughout (other goroutines keep storing that same value): "once a value has been
 \* stored CompareAndSwap succeeds exactly when the current value equals old" => CompareAndSwap(v, v) never fails
 TEqStore == IsEv("eqstore") /\ UNCHANGED <<val, pend>> /\ Ev.fails = 0
-TNext == TReset \/ TInv \/ TRet \/ TSwapChain \/ TCasInc \/ TEqStore \/ \E t \in Threads : TLin(t)
+\* firststore: rounds on never-used values whose first Load / CompareAndSwap(zero, zero) calls race with the one and only Store(x):
+\* afterwards the register holds x ("Load returns ... the most recently stored value")
+TFirstStore == IsEv("firststore") /\ UNCHANGED <<val, pend>> /\ Ev.bad = 0
+TNext == TReset \/ TInv \/ TRet \/ TSwapChain \/ TCasInc \/ TEqStore \/ TFirstStore \/ \E t \in Threads : TLin(t)
 TSpec == TInit /\ [][TNext]_vars
 Track == TrackL(l)
 Accepted == AcceptedP
